@@ -12,6 +12,7 @@ decided here.  Decided are the hand-over points the property is anchored in; eac
   C05.d  every logical line the parser finishes gets the nesting level computed from the context stack at that moment
          (stores of LocalLogicalLine.level in finish_logical_line originate in get_context_level()).
 """
+import re
 from facts import norm, Origins
 from progress import dominating_variant_facts
 from table import Table, TooComplex, render
@@ -415,6 +416,23 @@ def c05h(prog, rep):
             # .. or a small parser method / closure that performs it (`fn next_is_member_name(&self) -> bool`)
             return depth < 1 and hb is not None and hb.npath.startswith(P) and not hb.loops() and len(hb.blocks) < 40 and any(is_lookahead(x, depth + 1) for x in hb.calls())
         looks = [c for c in b.calls() if is_lookahead(c)]
+        # which tokens behind the word make it a name: `Name: T` and `A, Name: T` everywhere; after a routine header or a procedural
+        # type also `Name = ..` (the next declaration of a type / const block)
+        need = {"Colon", "Comma"} | ({"Equal"} if site == "parse_routine_header" else set())
+        tested = set()
+        for l in looks:
+            for hb in [b] + [prog.body(norm(x.t.get("resolved") or x.target or x.callee or "")) for x in [l]]:
+                if hb is None:
+                    continue
+                for bb2 in sorted(hb.reachable()):
+                    for f in dominating_variant_facts(prog, hb, bb2):
+                        if f[0].startswith("get_token_type(") and f[0].endswith("@Op.0") and f[1] in ("is", "in"):
+                            tested |= set(f[2])
+        if looks:
+            rep.check(need <= tested, R, "lookahead-covers-every-name-context:" + site,
+                      "%s looks behind a directive word only for %s; a declaration that follows as `Name %s ..` is still taken for the directive and joined onto this line"
+                      % (site, sorted(tested), "/".join({"Colon": ":", "Comma": ",", "Equal": "="}[t] for t in sorted(need - tested))), where=looks[0].where(),
+                      instance={"site": site, "tested": sorted(tested), "required": sorted(need)})
         for c in b.calls():
             if norm(c.t.get("resolved") or c.target or c.callee or "") != P + "consolidate_current_keyword":
                 continue
@@ -455,6 +473,97 @@ def c05i(prog, rep):
     rep.floor(R, "skip_pair call sites", n, 4)
 
 
+CONTEXT_QUERIES = ("is_in_type_decl", "get_last_context_type", "get_token_type", "is_at_start_of_line", "is_in_statement", "get_current_logical_line",
+                   "get_current_logical_line_token_types", "is_directive_before_next_token", "is_directive_after_prev_token", "get_context_level")
+CONSUMERS = ("next_token", "simple_op_until", "op_until", "take_until", "skip_pair", "skip_token")
+
+
+def c05j(prog, rep):
+    """C05.j — a contextual keyword (`package`, `requires`, `on`, `strict`, `private` ..: lexed as IdentifierOrKeyword) is a legal name.
+    In parse_structures, on every path from `the current token is an IdentifierOrKeyword` to a call that consumes tokens for a
+    keyword construct there is a branch on a question about the token's surroundings (previous / next token, enclosing context,
+    start of line ..) that can also avoid that call.  Without it a variable called Package at the start of a statement is parsed
+    like a package header up to the next `;` (its anonymous routines get no lines, what follows drifts).  The catch-all arm
+    (parse_statement: the token is taken as a name) is not a keyword construct."""
+    R = "C05.j"
+    from config import _dep_closure
+    P = "pasfmt_core::defaults::parser::InternalDelphiLogicalLineParser::"
+    b = prog.body(P + "parse_structures")
+    if not rep.check(b is not None, R, "anchor:parse_structures", "parse_structures not found"):
+        return
+    loops = b.loops()
+    heads = set(loops)
+    # where the token is known to be a contextual keyword: the IdentifierOrKeyword edges of the switches on the current token's kind
+    starts = set()
+    for bb in sorted(b.reachable()):
+        t = b.blocks[bb]["term"]
+        if t["k"] != "switch":
+            continue
+        for tgt in [x for _, x in t["targets"]] + [t["otherwise"]]:
+            if tgt is None:
+                continue
+            fs = dominating_variant_facts(prog, b, tgt)
+            if any(re.match(r"^get_current_token_type\([^()]*\)@Some\.0$", f[0]) and f[1] == "is" and f[2] == ("IdentifierOrKeyword",) for f in fs) \
+                    and not any(re.match(r"^get_current_token_type\([^()]*\)@Some\.0$", f[0]) and f[1] == "is" and f[2] == ("IdentifierOrKeyword",) for f in dominating_variant_facts(prog, b, bb)):
+                starts.add(tgt)
+    if not rep.check(bool(starts), R, "anchor:contextual-keyword-edges", "parse_structures has no arm for IdentifierOrKeyword tokens any more"):
+        return
+    # branches on a question about the surroundings
+    qdst = {c.t["dst"]["l"] for c in b.calls() if norm(c.t.get("resolved") or c.target or c.callee or "").split("::")[-1] in CONTEXT_QUERIES
+            and not (norm(c.t.get("resolved") or c.target or c.callee or "").endswith("::get_token_type") and (c.t.get("callee_args") or ["0"])[-1] == "0")}
+    gbranches = set()
+    for bb in sorted(b.reachable()):
+        t = b.blocks[bb]["term"]
+        if t["k"] == "switch" and t["discr"]["k"] in ("copy", "move") and _dep_closure(b, t["discr"]["place"]["l"]) & qdst:
+            gbranches.add(bb)
+    from table import canon_place
+
+    def feasible_succ(x):
+        """successors of x; a re-test of the current token's kind (`matches!(token_type, Keyword(_))` in a guard) can only go the way of IdentifierOrKeyword"""
+        t = b.blocks[x]["term"]
+        if t["k"] == "switch" and t["discr"]["k"] in ("copy", "move"):
+            d = t["discr"]["place"]["l"]
+            for st0 in b.blocks[x]["stmts"]:
+                if st0["k"] == "assign" and st0["dst"]["l"] == d and not st0["dst"]["p"] and st0["rv"]["k"] == "discr" \
+                        and re.match(r"^get_current_token_type\([^()]*\)@Some\.0$", canon_place(b, st0["rv"]["place"], {})):
+                    adt = norm(st0["rv"].get("adt", ""))
+                    hit = [tb for v, tb in t["targets"] if prog.variant_of(adt, v) == "IdentifierOrKeyword"]
+                    return hit if hit else [t["otherwise"]]
+        return list(b.succ[x])
+    n = 0
+    for c in b.calls():
+        t = norm(c.t.get("resolved") or c.target or c.callee or "")
+        nm = t.split("::")[-1]
+        # (taking the token itself with next_token() and going on is what the catch-all does too; a keyword CONSTRUCT is what consumes
+        #  further tokens, finishes the line or parses a block)
+        if not t.startswith(P) or nm in ("parse_statement", "next_token") or not (nm in CONSUMERS or nm.startswith("parse_") or nm == "finish_logical_line"):
+            continue
+        G = {g for g in gbranches if not b.postdominates(c.bb, g)}
+
+        def open_from(s0):
+            """is c.bb reachable from s0 without a context branch, following only edges that are possible for an IdentifierOrKeyword token"""
+            seen, st = {s0}, [s0]
+            while st:
+                x = st.pop()
+                if x == c.bb:
+                    return True
+                if x in G or (x in heads and x != s0):
+                    continue
+                for y in feasible_succ(x):
+                    if y not in seen:
+                        seen.add(y)
+                        st.append(y)
+            return False
+        if not any(c.bb in b.reach_from(s0, avoid=heads, include_start=True) for s0 in starts):
+            continue
+        n += 1
+        open_path = any(open_from(s0) for s0 in starts)
+        rep.check(not open_path, R, "contextual-keyword-needs-context:%s@%s" % (nm, abs(c.line or 0) and nm),
+                  "parse_structures can reach `%s` for a contextual keyword (a legal name) without a branch on the token's surroundings: a name spelled like the keyword at the start of a statement is "
+                  "parsed as the keyword's construct, the statement's own structure (anonymous routines, child lines) is lost and what follows drifts" % nm, where=c.where(), instance={"call": nm})
+    rep.floor(R, "token-consuming calls reachable for contextual keywords", n, 4)
+
+
 def check_c05(prog, rep, tier, cfg):
     c05e(prog, rep)
     c05a(prog, rep)
@@ -465,6 +574,7 @@ def check_c05(prog, rep, tier, cfg):
     c05g(prog, rep)
     c05h(prog, rep)
     c05i(prog, rep)
+    c05j(prog, rep)
 
 
 PROPERTIES = {
